@@ -31,11 +31,13 @@ type Wire struct {
 	gated bool
 	cut   bool
 	hole  bool // the peer vanished silently: writes are swallowed, nothing arrives, no end of stream yet
-	c2s   dirq
-	s2c   dirq
-	cli   *End
-	srv   *End
-	run   *Run
+	// closeErr: closing the client end after the connection was cut reports an error (see errPeerGone)
+	closeErr bool
+	c2s      dirq
+	s2c      dirq
+	cli      *End
+	srv      *End
+	run      *Run
 	// write gate: called (without w.mu) before a client frame is written;
 	// returns false to make the write fail.
 	cliWriteGate func(info FrameInfo) error
@@ -152,6 +154,10 @@ func (e *End) WriteMessage(b []byte) error {
 	return nil
 }
 
+// errPeerGone is what closing a connection reports when its peer has gone away first and the transport wants to say goodbye
+// (a TLS connection that cannot send its close_notify reports the write error from Close).
+var errPeerGone = errors.New("harness: close: the peer is gone (broken pipe)")
+
 // Close implements socket.Messages.
 func (e *End) Close() error {
 	w := e.w
@@ -159,6 +165,10 @@ func (e *End) Close() error {
 		w.cliCloseGate()
 	}
 	w.mu.Lock()
+	var cerr error
+	if !e.closed && e.client && w.closeErr && w.cut {
+		cerr = errPeerGone
+	}
 	if !e.closed {
 		e.closed = true
 		// the peer sees the end of the stream once it has consumed what is queued
@@ -179,7 +189,7 @@ func (e *End) Close() error {
 	}
 	w.cond.Broadcast()
 	w.mu.Unlock()
-	return nil
+	return cerr
 }
 
 // ---- driver operations -----------------------------------------------------
